@@ -328,6 +328,15 @@ ACQ = {"malloc", "calloc", "realloc", "strdup", "strndup", "fopen", "fdopen", "f
 REL = {"free", "fclose", "close", "closedir", "endutent", "closelog", "pclose", "munmap", "dlclose"}
 
 
+def const_object(vardecl):
+    """the object itself cannot be written: `const T x`, `const T x[n]`, `T *const p` (a `const char *p` is a writable pointer)"""
+    t = vardecl.get("type", {}).get("qualType", "")
+    t = re.sub(r"\[[^\]]*\]", "", t).strip()
+    if "*" in t:
+        return bool(re.search(r"\*\s*const\s*$", t))
+    return t.startswith("const ") or t.endswith(" const")
+
+
 def callgraph(run):
     """every function defined in the library sources: file, complete direct callee list, indirect-call flag, AST node, static locals;
     the set that transitively reaches an acquisition/release function; address-taken functions; a callees-first order"""
@@ -356,7 +365,7 @@ def callgraph(run):
 
             def walk(x):
                 if isinstance(x, dict):
-                    if x.get("kind") == "VarDecl" and x.get("storageClass") == "static":
+                    if x.get("kind") == "VarDecl" and x.get("storageClass") == "static" and not const_object(x):
                         statics.append(x.get("name"))
                     for c in x.get("inner", []) or []:
                         walk(c)
@@ -365,7 +374,7 @@ def callgraph(run):
         file_statics[rel] = statics_of(t)
         # objects with static storage defined here: file scope (not `extern` declarations) and function-local statics ("function:name")
         for n in t.get("inner", []):
-            if n.get("kind") == "VarDecl" and n.get("storageClass") != "extern" and not n.get("isImplicit") and n.get("name"):
+            if n.get("kind") == "VarDecl" and n.get("storageClass") != "extern" and not n.get("isImplicit") and n.get("name") and not const_object(n):
                 static_objs.add(n["name"])
         for (name, _, _, _, _, st) in res:
             for v in st:
